@@ -150,6 +150,31 @@ CLAIMED["C02"] = dict(
          "with an independent reachability walk.",
     technique=TECH + "; ghost-effect flow analysis of the real collection adapters (program-order event log)",
 )
+CLAIMED["C16"] = dict(
+    level="proof",
+    text="Relative to the numpy/pandas/xarray contracts (mode R: floats read as reals): the real create_range_dim / "
+         "create_time_range bodies produce coordinates start + i*step, all inside [start, stop), exactly (stop-start)/step "
+         "of them when that is a whole number (the trailing-element rule is part of the executed body), with the step "
+         "recorded; ValueError iff neither step nor size / samplerate; get_coord_index returns the unique i with c[i] <= v < "
+         "c[i+1] (last index at the upper edge), KeyError or clamping (0 / size) outside, on any strictly increasing axis.",
+    note="The double-precision count claim (non-representable steps such as 0.1 or 1/44100), set_value_at_pos and "
+         "create_frequency_range are decided by the bounded stand-in range_dims only (start x step x n grids, lattice "
+         "tolerance n ulps). Trusted: engine, solvers, numpy.arange / pandas get_slice_bound / xarray.Variable contracts.",
+    technique=TECH + "; assumed numpy/pandas contracts; bounded stand-in for double rounding",
+)
+CLAIMED["C17"] = dict(
+    level="proof",
+    text="Relative to the xarray/numpy/pandas contracts (mode R): crop_dim returns exactly the samples whose coordinate lies in the "
+         "requested interval, open/closed per flag, data attached, ValueError iff start > stop or outside the axis (domain: no "
+         "coordinate strictly within eps of an open end); crop_dim_width returns exactly `width` samples (first / last / centred "
+         "block, data on its coordinates); extend_dim_width returns exactly `width` samples with the originals kept on their "
+         "coordinates at the start / centre / end, the new cells on the axis' own lattice holding the fill value; adjust_dim_width "
+         "dispatches and rejects width < 1 and invalid positions two-sidedly.",
+    note="extend_dim and all double-precision effects (float arange lengths) are decided by the bounded stand-in crop_extend only "
+         "(axes x widths x positions x closedness, every sample tagged with its coordinate); two defects it found were fixed in "
+         "/repo (f27f1a9, 4d01a10), one is a known finding (crop_dim open end within eps of a coordinate).",
+    technique=TECH + "; assumed xarray/numpy contracts; bounded stand-in for double rounding",
+)
 ALL = [f"C{n:02d}" for n in range(1, 21)]
 NOT_APPLICABLE = {p: "check not built yet in this session (work in progress; see DESIGN.md section 12 build order)"
                   for p in ALL if p not in CLAIMED}
